@@ -192,8 +192,10 @@ def classes_of(devs):
     return "+".join(sorted({dev_class(d) for d in devs})) or "plain"
 
 
-def mol_devs_single(n, g, base_el, reduced=False):
+def mol_devs_single(n, g, pal, reduced=False):
     ne = len(edges_of(n, g))
+    base_el = PALETTES[pal]["el"]
+    base = base_mol(n, 0, pal)["coord"]
     out = []
     for e in range(ne):
         for t in (BT_R if reduced else BT_DEV):
@@ -210,14 +212,15 @@ def mol_devs_single(n, g, base_el, reduced=False):
     for a in range(n):
         for c in ((0, 2) if reduced else (0, 1, 2)):
             for v in (XYZ_R if reduced else XYZ_DEV):
-                out.append(["xyz", a, c, v])
+                if f32(v) != base[a][c]:          # no-op deviations are not cases
+                    out.append(["xyz", a, c, v])
     for t in (DBT_R if reduced else DBT_DEV):
         out.append(["dbt", t])
     return out
 
 
-def devsets(n, g, order, reduced, base_el):
-    s = mol_devs_single(n, g, base_el, reduced)
+def devsets(n, g, order, reduced, pal):
+    s = mol_devs_single(n, g, pal, reduced)
     if order == 0:
         yield []
     elif order == 1:
@@ -230,8 +233,8 @@ def devsets(n, g, order, reduced, base_el):
             yield list(combo)
 
 
-def n_devsets(n, g, order, reduced, base_el):
-    return sum(1 for _ in devsets(n, g, order, reduced, base_el))
+def n_devsets(n, g, order, reduced, pal=0):
+    return sum(1 for _ in devsets(n, g, order, reduced, pal))
 
 
 # ---------------------------------------------------------------------------
@@ -413,6 +416,9 @@ def check_foreign_reader(m, ctab_lines):
     """RDKit reads the text biotite wrote (only molecules whose symbols RDKit knows)."""
     if not all(e in RD_VALID for e in m["elem"]):
         return False
+    if any(len("%.4f" % float(x)) >= 10 for r in m["coord"] for x in r):
+        # RDKit's reader mis-reads coordinate fields that touch (no blank between full-width fields)
+        return False
     Chem = rdkit()
     block = "\n\n\n" + "\n".join(ctab_lines) + "\n"
     try:
@@ -549,10 +555,11 @@ def plain_prior(pal):
     return build_atoms(apply_devs(base_mol(2, 1, pal), 2, 1, []))
 
 
-def eval_mol(m, ver, cont, pal, ctx=None):
+def eval_mol(m, ver, cont, pal, ctx=None, atoms=None):
     """Run one molecule through one container.  Returns list of failures (site, mode, what, exp, obs)."""
     mode, longel = classify_mol(m, ver)
-    atoms = build_atoms(m)
+    if atoms is None:
+        atoms = build_atoms(m)
     snap = snapshot(atoms)
     site = "write[%s]" % ver
     cnt = ctx.count if ctx else (lambda *a: None)
@@ -595,11 +602,20 @@ def eval_mol(m, ver, cont, pal, ctx=None):
         want = None
         if mode == "refuse_or_v3000":
             want = "V3000"
+            if ctfile.version_of(lines[0]) != "V3000":
+                try:
+                    ctfile.parse_ctab(lines)
+                except ctfile.LayoutError as e:
+                    raise Fail("column_shift", "value that does not fit V2000 columns is written into shifted columns "
+                               "instead of selecting V3000 or raising (%s)" % e.where, "V3000 or an exception", str(e))
+                raise Fail("not_refused", "value that does not fit V2000 columns written as V2000",
+                           "V3000 or an exception", lines[:6])
         elif ver is not None:
             want = ver
         elif mode == "accept":
             want = "V2000" if (m["n"] < 1000 and len(m["bonds"]) < 1000) else "V3000"
-        site = "ctab[%s]" % (ctfile.version_of(lines[0]) or "none")
+        vw0 = ctfile.version_of(lines[0])
+        site = "ctab[%s]" % (vw0 if vw0 in ("V2000", "V3000") else "unknown")
         vw = check_file_content(m, lines, want, longel)
         site = "read[%s]" % vw
         try:
@@ -656,21 +672,21 @@ def report_mol(ctx, n, g, devs, ver, cont, pal, fails, memo):
 
 def run_mol(shard, ctx):
     pal = ctx.seed % len(PALETTES)
-    base_el = PALETTES[pal]["el"]
     n, order, reduced = shard["n"], shard["order"], shard["reduced"]
     memo = {}
     idx = 0
     for g in shard["graphs"]:
-        for devs in devsets(n, g, order, reduced, base_el):
+        for devs in devsets(n, g, order, reduced, pal):
             idx += 1
             if idx % shard["of"] != shard["part"]:
                 continue
             if not ctx.journal(json.dumps({"kind": "mol", "n": n, "g": g, "devs": devs, "pal": pal})):
                 continue
             m = apply_devs(base_mol(n, g, pal), n, g, devs)
+            atoms = build_atoms(m)
             for ver in VERSIONS:
                 for cont in shard["conts"]:
-                    fails = eval_mol(m, ver, cont, pal, ctx)
+                    fails = eval_mol(m, ver, cont, pal, ctx, atoms)
                     ctx.ev(1, 1 if devs else 0)
                     if fails:
                         report_mol(ctx, n, g, devs, ver, cont, pal, fails, memo)
@@ -687,7 +703,7 @@ def mol_specs(tier):
     if q:
         specs += [(3, 2, True, ["mol"])]
     else:
-        specs += [(3, 2, False, CONTAINERS), (4, 2, True, ["ctab", "sdf"]), (1, 3, True, CONTAINERS),
+        specs += [(3, 2, False, CONTAINERS), (4, 2, True, ["sdf"]), (1, 3, True, CONTAINERS),
                   (2, 3, True, ["mol"])]
     return specs
 
@@ -698,10 +714,10 @@ def mol_shards(tier):
     for n, order, reduced, conts in mol_specs(tier):
         graphs = list(range(1 << len(pairs_of(n))))
         # count with the default palette's base element (palettes only differ by one no-op entry)
-        total = sum(n_devsets(n, g, order, reduced, "C") for g in graphs) if order <= 1 or n <= 2 else None
+        total = sum(n_devsets(n, g, order, reduced) for g in graphs) if order <= 1 or n <= 2 else None
         if total is None:
             # pairs on many graphs: one shard group per graph block
-            per = max(1, n_devsets(n, graphs[-1], order, reduced, "C"))
+            per = max(1, n_devsets(n, graphs[-1], order, reduced))
             block = max(1, target // per)
             for k in range(0, len(graphs), block):
                 gs = graphs[k:k + block]
@@ -762,8 +778,8 @@ def chg_cases(tier):
             yield {"kind": "chg", "sub": "pair", "c0": c0, "c1": c1}
 
 
-def run_simple_case(ctx, case, m, ver, cont, pal, klass, nontrivial=1):
-    fails = eval_mol(m, ver, cont, pal, ctx)
+def run_simple_case(ctx, case, m, ver, cont, pal, klass, nontrivial=1, atoms=None):
+    fails = eval_mol(m, ver, cont, pal, ctx, atoms)
     ctx.ev(1, nontrivial)
     for site, mode, what, exp, obs in fails:
         ctx.violation("%s|%s|%s" % (site, mode, klass), what, dict(case, ver=ver, cont=cont, pal=pal), exp, obs)
@@ -786,9 +802,10 @@ def run_chg(shard, ctx):
         if i % shard["of"] != shard["part"]:
             continue
         m = chg_mol(case, pal)
+        atoms = build_atoms(m)
         for ver in VERSIONS:
             for cont in conts:
-                run_simple_case(ctx, case, m, ver, cont, pal, chg_class(case))
+                run_simple_case(ctx, case, m, ver, cont, pal, chg_class(case), atoms=atoms)
         if i % 499 == 0:
             ctx.sample(case)
 
@@ -841,12 +858,13 @@ def run_big(shard, ctx):
     case = shard["case"]
     m = big_mol(case, pal)
     too_big = m["n"] >= 1000 or len(m["bonds"]) >= 1000
+    atoms = build_atoms(m)
     for ver in VERSIONS:
         for cont in CONTAINERS:
             if too_big and ver == "V2000":
                 run_too_big(ctx, case, m, cont, pal)
             else:
-                run_simple_case(ctx, case, m, ver, cont, pal, big_class(m))
+                run_simple_case(ctx, case, m, ver, cont, pal, big_class(m), atoms=atoms)
     ctx.sample(case)
 
 
@@ -882,7 +900,7 @@ HEADER_BASE = {
              "registry_number": "123456", "comments": "a comment"},
 }
 HEADER_PALETTE = {
-    "mol_name": ["", "A", "a b", "x" * 80, "x" * 81, "M  END", "$$$$", "> <a>", "12 3"],
+    "mol_name": ["", "A", "a b", "x" * 80, "x" * 81, "M  END", "> <a>", "12 3"],
     "initials": ["", "A", "AB", "ABC"],
     "program": ["", "P", "a b", "PROGRAM8", "PROGRAM89"],
     "time": [None, [2020, 2, 29, 13, 5], [1969, 1, 1, 0, 0], [2068, 12, 31, 23, 59]],
@@ -1171,7 +1189,7 @@ def eval_meta(items, ctor, pal):
     K = molio.Metadata.Key
     kc = [key_class(k) for k, _ in items]
     vc = [value_class(v) for _, v in items]
-    site = "Metadata[%s]" % ctor
+    site = "Metadata"
     try:
         keys = []
         for (k, _), (c, lab) in zip(items, kc):
@@ -1270,52 +1288,98 @@ def meta_single_cases():
 
 
 def meta_cases(tier):
-    """every key x value (single item), every ordered pair of reduced keys x reduced value pairs"""
+    """(group, case): every key x value (single item; group = key index), every ordered pair of reduced keys x
+    reduced value pairs, thorough: ordered triples"""
+    grp = 0
     for k in meta_single_cases():
         cls = key_class(k)[0]
         vals = VALUES if cls != "refuse" else ["x"]
+        grp += 1
         for v in vals:
-            yield {"kind": "meta", "items": [[k, v]]}
+            yield grp, {"kind": "meta", "items": [[k, v]]}
     for k1, k2 in itertools.permutations(KEYS_R, 2):
+        grp += 1
         for v1 in VALUES_R:
             for v2 in (VALUES_R if tier != "quick" else VALUES_R[:2]):
-                yield {"kind": "meta", "items": [[k1, v1], [k2, v2]]}
+                yield grp, {"kind": "meta", "items": [[k1, v1], [k2, v2]]}
     if tier != "quick":
         for ks in itertools.permutations(KEYS_R[:5], 3):
-            yield {"kind": "meta", "items": [[k, VALUES_R[i]] for i, k in enumerate(ks)]}
+            grp += 1
+            yield grp, {"kind": "meta", "items": [[k, VALUES_R[i]] for i, k in enumerate(ks)]}
+
+
+def is_plain_key(k):
+    return list(k) == ["name"] and key_class(k) == ("accept", "key_-n--")
 
 
 def meta_classes(items):
     labs = set()
     for k, v in items:
-        labs.add(key_class(k)[1])
-        labs.add(value_class(v)[1])
-    return "+".join(sorted(labs))
+        if not is_plain_key(k):
+            labs.add(key_class(k)[1])
+        if v != "x":
+            labs.add(value_class(v)[1])
+    if len(items) > 1:
+        labs.add("items_%d" % len(items))
+    return "+".join(sorted(labs)) or "plain"
+
+
+def reduce_meta(items, ctor, pal):
+    """Replace components by plain ones / drop items while the case keeps failing."""
+    def failing(it):
+        res, fl = eval_meta(it, ctor, pal)
+        return fl
+
+    cur = list(items)
+    changed = True
+    while changed:
+        changed = False
+        for i in range(len(cur)):
+            if len(cur) > 1:
+                t = cur[:i] + cur[i + 1:]
+                if failing(t):
+                    cur, changed = t, True
+                    break
+            k, v = cur[i]
+            if not is_plain_key(k):
+                t = cur[:i] + [({"name": "k%d" % i}, v)] + cur[i + 1:]
+                if failing(t):
+                    cur, changed = t, True
+                    break
+            if v != "x":
+                t = cur[:i] + [(k, "x")] + cur[i + 1:]
+                if failing(t):
+                    cur, changed = t, True
+                    break
+    return cur
 
 
 def run_meta_case(ctx, case, pal):
     items = [(dict(k), v) for k, v in case["items"]]
     for ctor in ([case["ctor"]] if "ctor" in case else ["dict", "setitem", "assign"]):
-        if ctor == "setitem" and any(v == "" for _, v in items):
-            # documented: empty values are refused by __setitem__
-            res, fails = eval_meta(items, ctor, pal)
-            if res not in ("unspecified_refused", "refused") and not fails:
-                fails = [("Metadata[setitem]", "not_refused", "empty value accepted by __setitem__", "ValueError", res)]
-        else:
-            res, fails = eval_meta(items, ctor, pal)
-        nontriv = 1 if (len(items) > 1 or items[0][1] != "x" or list(items[0][0]) != ["name"]) else 0
+        res, fails = eval_meta(items, ctor, pal)
+        if ctor == "setitem" and any(v == "" for _, v in items) and not fails \
+                and res not in ("unspecified_refused", "refused"):
+            # documented in the code: empty values are refused by __setitem__
+            fails = [("Metadata", "not_refused", "empty value accepted by __setitem__", "ValueError", res)]
+        nontriv = 0 if (len(items) == 1 and items[0][1] == "x" and is_plain_key(items[0][0])) else 1
         ctx.ev(1, nontriv)
         if res != "fail":
             ctx.count(res)
         ctx.outcome((res, json.dumps(case["items"]), ctor))
-        for site, mode, what, exp, obs in fails:
-            ctx.violation("%s|%s|%s" % (site, mode, meta_classes(items)), what, dict(case, ctor=ctor, pal=pal), exp, obs)
+        if fails:
+            red = reduce_meta(items, ctor, pal)
+            if red != items:
+                fails = eval_meta(red, ctor, pal)[1] or fails
+            rcase = {"kind": "meta", "items": [[k, v] for k, v in red], "ctor": ctor, "pal": pal}
+            for site, mode, what, exp, obs in fails:
+                ctx.violation("%s|%s|%s" % (site, mode, meta_classes(red)), what, rcase, exp, obs)
 
 
 def run_meta(shard, ctx):
     pal = ctx.seed % len(PALETTES)
-    for i, case in enumerate(meta_cases(ctx.tier)):
-        if i % shard["of"] != shard["part"]:
+    for i, (grp, case) in enumerate(meta_cases(ctx.tier)):
+        if grp % shard["of"] != shard["part"]:
             continue
         run_meta_case(ctx, case, pal)
         if i % 1999 == 0:
@@ -1358,7 +1422,7 @@ def eval_records(case, pal, api):
 
     names = case["names"]
     either = any(nm.startswith("$$$$") for nm in names)
-    site = "SDFile[%s]" % api
+    site = "SDFile"
     try:
         try:
             f = molio.SDFile()
@@ -1422,8 +1486,10 @@ def eval_records(case, pal, api):
                 else:
                     raise Fail("record_property", "SDFile.record on a multi-record file did not raise", "ValueError", None)
             # documented: MOLFile reads the first structure of an SD file
+            site = "MOLFile.read(sdf)"
             first = molio.MOLFile.read(io.StringIO(text)).get_structure()
             check_readback(rec_mol(0, pal), first, "V2000", [])
+            site = "SDFile"
             if molio.SDFile.read(io.StringIO(text)) != f:
                 raise Fail("file_eq", "SDFile.__eq__ between written and read file", None, None)
         except Fail:
@@ -1491,12 +1557,14 @@ RD_TYPE = {"ANY": "UNSPECIFIED", "SINGLE": "SINGLE", "DOUBLE": "DOUBLE", "TRIPLE
 KEKULE = {"AROMATIC_SINGLE": "SINGLE", "AROMATIC_DOUBLE": "DOUBLE", "AROMATIC_TRIPLE": "TRIPLE"}
 
 
-def rd_devs_single(n, g, base_el):
+def rd_devs_single(n, g, pal):
     ne = len(edges_of(n, g))
+    base_el = PALETTES[pal]["el"]
+    base = base_mol(n, 0, pal)["coord"]
     out = [["bt", e, t] for e in range(ne) for t in BT_DEV]
     out += [["chg", a, c] for a in range(n) for c in RD_CHG] + [["nochg"]]
     out += [["el", a, el] for a in range(n) for el in RD_EL if el != base_el]
-    out += [["xyz", a, c, v] for a in range(n) for c in range(3) for v in RD_XYZ]
+    out += [["xyz", a, c, v] for a in range(n) for c in range(3) for v in RD_XYZ if f32(v) != base[a][c]]
     out += [["ann", a, i] for a in range(n) for i in range(len(RD_ANN))]
     return out
 
@@ -1728,34 +1796,65 @@ def eval_rd_direct(case):
 def rd_classes(case):
     if case.get("ring"):
         return "ring%d" % case["n"]
-    return ("+".join(sorted({rd_dev_class(d) for d in case["devs"]})) or "plain") + \
-        ("+stack_ge2" if case["depth"] >= 2 else "")
+    return "+".join(sorted({rd_dev_class(d) for d in case["devs"]})) or "plain"
+
+
+STACK_MODES = ("models", "conformer_count", "conformer_coord")
+
+
+def rd_sig(site, mode, case):
+    if mode == "conformer_ids_not_0_to_k":
+        return "to_mol|%s|stack_ge2" % mode
+    k = rd_classes(case)
+    if mode in STACK_MODES and case["depth"] >= 2:
+        k += "+stack_ge2"
+    return "%s|%s|%s" % (site, mode, k)
+
+
+def rd_fails(case):
+    res, fails = eval_rd(case)
+    n_ev = 1
+    m = None
+    if case["kw"] == "default" and not any(d[0] == "ann" for d in case.get("devs", [])):
+        m = rd_model(case)
+        bonded = {i for e in m["bonds"] for i in e}
+        # an unbonded hydrogen without residue information is outside the round trip (to_mol always sets it)
+        if not any(el == "H" and i not in bonded for i, el in enumerate(m["elem"])):
+            r2, f2 = eval_rd_direct(case)
+            n_ev += 1
+            fails = fails + f2
+    return res, fails, n_ev
 
 
 def run_rd_case(ctx, case):
-    res, fails = eval_rd(case)
-    ctx.ev(1, 1 if (case.get("ring") or case["devs"] or case["depth"] >= 2) else 0)
-    if res != "fail":
-        ctx.count(res)
+    res, fails, n_ev = rd_fails(case)
+    ctx.ev(n_ev, n_ev if (case.get("ring") or case["devs"] or case["depth"] >= 2) else 0)
+    if not fails:
+        ctx.count("accepted", n_ev)
     ctx.outcome((res, json.dumps(case)))
-    if case["kw"] == "default" and not any(d[0] == "ann" for d in case.get("devs", [])):
-        r2, f2 = eval_rd_direct(case)
-        ctx.ev(1, 1)
-        if r2 != "fail":
-            ctx.count(r2)
-        fails = fails + f2
+    if fails and len(case.get("devs", [])) >= 2:
+        subs = []
+        for d in case["devs"]:
+            sc = dict(case, devs=[d])
+            fl = rd_fails(sc)[1]
+            if fl:
+                subs.append((sc, fl))
+        if subs:
+            for sc, fl in subs:
+                for site, mode, what, exp, obs in fl:
+                    ctx.violation(rd_sig(site, mode, sc), what, sc, exp, obs)
+            return
     for site, mode, what, exp, obs in fails:
-        ctx.violation("%s|%s|%s" % (site, mode, rd_classes(case)), what, case, exp, obs)
+        ctx.violation(rd_sig(site, mode, case), what, case, exp, obs)
 
 
 RING_TYPES = ["AROMATIC_SINGLE", "AROMATIC_DOUBLE", "AROMATIC"]
 
 
 def rd_cases(tier, pal):
-    base_el = PALETTES[pal]["el"]
     for n in (1, 2, 3, 4):
         for g in range(1 << len(pairs_of(n))):
-            singles = rd_devs_single(n, g, base_el)
+            singles = rd_devs_single(n, g, pal)
             devsets_ = [[]] + [[d] for d in singles]
             if n <= 2 or (tier != "quick" and n == 3):
                 devsets_ += [[a, b] for a, b in itertools.combinations(singles, 2)
@@ -1765,7 +1864,7 @@ def rd_cases(tier, pal):
             for devs in devsets_:
                 for kw in RD_KW:
                     for depth in RD_DEPTHS:
-                        if len(devs) == 2 and depth in (1, 3):
+                        if depth in (1, 3) and not (len(devs) == 0 or (len(devs) == 1 and devs[0][0] == "bt")):
                             continue
                         yield {"kind": "rd", "n": n, "g": g, "devs": devs, "kw": kw, "depth": depth, "pal": pal}
     for n in (3, 4, 5, 6):
@@ -1823,7 +1922,8 @@ def bounds(tier):
         "header_palette_sizes": {k: len(v) for k, v in HEADER_PALETTE.items()},
         "meta_keys": len(list(meta_single_cases())), "meta_values": len(VALUES),
         "record_names": REC_NAMES, "records_per_file": "1..3 (all ordered selections of distinct names)",
-        "rdkit": "graphs on 1..4 atoms x single deviations (pairs on n<=%d) x kw %s x depth %s; aromatic rings 3..6 "
+        "rdkit": "graphs on 1..4 atoms x single deviations (pairs on n<=%d) x kw %s x depth %s (depth 1 and 3 only for "
+                 "the plain molecule and bond-type deviations); aromatic rings 3..6 "
                  "over %s" % (2 if q else 3, list(RD_KW), RD_DEPTHS, RING_TYPES),
         "palettes": len(PALETTES),
     }
